@@ -40,7 +40,7 @@ func (s c02Stream) threads(slot int, rng *rand.Rand) [][]syCop {
 	}
 	recvAll := syCop{Op: "recv*", Slot: slot}
 	var a []syCop
-	a = append(a, syCop{Op: "open", Slot: slot, Kind: s.Kind})
+	a = append(a, syCop{Op: "open", Slot: slot, Kind: s.Kind, M: slot + s.N})
 	nrecv := 0
 	recv1 := func() syCop {
 		c := syCop{Op: "recv", Slot: slot, Park: nrecv == s.ParkR}
@@ -458,6 +458,76 @@ func TestC02(t *testing.T) {
 					sp.small(&rec)
 				}
 			}
+		}
+	}
+
+	// ---- A2. a fault AFTER a successful completion must not turn it into a failure: the handler has returned nil and
+	// every response (n messages + the OK trailer) has reached the client's transport; the caller, slow, has consumed p
+	// of the messages; then the connection fails; the caller must still receive the remaining messages and io.EOF
+	for kind := 0; kind < 3; kind++ {
+		for n := 0; n <= 3; n++ {
+			for p := 0; p <= n; p++ {
+				st := c02Stream{Kind: kind, N: 0, CProg: 2, ParkR: -1, ParkS: -1, H: syHProg{J: 0, N: n, Seed: int64(kind*10 + n)}}
+				cfg := c02Cfg{0, (kind+n+p)%2 == 1}
+				recvd, failed := 0, false
+				steps, complete := runC02Lock(t, cfg, []c02Stream{st}, int64(5000+kind*100+n*10+p), func(step int, en []syAct) int {
+					// thread 0 opens and half-closes, thread 1 receives; everything but the receiver runs first
+					for i, a := range en {
+						if !(a.K == 'U' && a.N == 1) {
+							return i
+						}
+					}
+					if recvd < p {
+						recvd++
+						return 0
+					}
+					if !failed {
+						failed = true
+						return -2 // inject the failure now
+					}
+					return 0
+				})
+				rec := recC02("c02-fail-after-success", cfg, []c02Stream{st}, steps, complete, "mode:directed-fault", fmt.Sprintf("unread=%d", n+1-p))
+				sp.small(&rec)
+			}
+		}
+	}
+
+	// ---- A3. a SendMsg parked in a blocked transport Write while the handler returns nil and the OK trailer is processed:
+	// the stream completed successfully, the receiver must see io.EOF (the parked SendMsg itself may fail)
+	for kind := 0; kind < 3; kind++ {
+		for _, nb := range []int{0, 1, 2} {
+			st := c02Stream{Kind: kind, N: 1, CProg: 2, ParkR: -1, ParkS: -1, H: syHProg{J: 0, N: nb, Seed: int64(kind*10 + nb)}}
+			cfg := c02Cfg{0, (kind+nb)%2 == 1}
+			phase := 0
+			steps, complete := runC02Lock(t, cfg, []c02Stream{st}, int64(6000+kind*10+nb), func(step int, en []syAct) int {
+				switch phase {
+				case 0: // open (thread 0's first operation), then block the transport
+					phase = 1
+					return 0
+				case 1:
+					phase = 2
+					return -3 // block writes
+				case 2: // the sender enters SendMsg and parks in Write
+					phase = 3
+					for i, a := range en {
+						if a.K == 'U' && a.N == 0 {
+							return i
+						}
+					}
+				case 3: // everything else except the receiver: handler runs and returns, responses are delivered and processed
+					for i, a := range en {
+						if a.K != 'U' {
+							return i
+						}
+					}
+					phase = 4
+					return -4 // unblock writes
+				}
+				return 0
+			})
+			rec := recC02("c02-blocked-send", cfg, []c02Stream{st}, steps, complete, "mode:directed-backpressure")
+			sp.small(&rec)
 		}
 	}
 
